@@ -286,8 +286,13 @@ Exp_insertdim(f, a) ==
 
 \* =========================================================== reorderDimensions
 \* a.old, a.new : sequences of dimension names, new a permutation of old
-Dom_reorder(f, a) == SeqSet(a.old) = SeqSet(a.new) /\ NoDup(a.new) /\ NoDup(a.old)
+Dom_reorder(f, a) == /\ SeqSet(a.old) = SeqSet(a.new) /\ NoDup(a.new) /\ NoDup(a.old)
                      /\ \A i \in 1..Len(a.new) : HasDim(f, a.new[i])
+                     \* the docstring speaks of "dimension names in existing order": a variable
+                     \* that has any of the named dimensions must have all of its dimensions named
+                     /\ \A i \in 1..Len(f.vars) :
+                          (\E d \in SeqSet(a.new) : VarHasDim(f.vars[i], d)) =>
+                             SeqSet(f.vars[i].dims) \subseteq SeqSet(a.new)
 \* the property fixes only the relative order of the named dimensions; the
 \* variable's new dimension tuple nd (a permutation of v.dims) is taken from the
 \* observation and the data must be the corresponding transposition
@@ -390,9 +395,13 @@ ExprVars(e) == CASE e.t = "var" -> {e.k}
 RECURSIVE ExprTotal(_)
 \* no operator that can produce a non-finite value (the property's eval
 \* clause does not speak about non-finite results)
+ExprIsBool(e) == e.t = "bin" /\ e.op \in {"<", "<=", ">", ">=", "==", "!="}
 ExprTotal(e) == CASE e.t = "var" -> TRUE
                   [] e.t = "int" -> TRUE
-                  [] e.t = "bin" -> e.op \in {"+", "-", "*", "<", "<=", ">", ">=", "==", "!="} /\ ExprTotal(e.l) /\ ExprTotal(e.r)
+                  [] e.t = "bin" -> /\ e.op \in {"+", "-", "*", "<", "<=", ">", ">=", "==", "!="}
+                                    /\ ExprTotal(e.l) /\ ExprTotal(e.r)
+                                    \* numpy booleans are not numbers: no arithmetic on comparison results
+                                    /\ ~ExprIsBool(e.l) /\ ~ExprIsBool(e.r)
                   [] e.t = "where" -> ExprTotal(e.c) /\ ExprTotal(e.x) /\ ExprTotal(e.y)
 Dom_eval(f, a) ==
   /\ Len(a.assign) >= 1
